@@ -37,7 +37,7 @@ Definition select {A} (cfgs : list Z) (samples : list A) (r_start r_stop : optio
       if forallb (fun d => d =? zhd (diffs cfgs)) (diffs cfgs) && (0 <? r_step) then
         let idl := zrange (nth a cfgs 0) (nth b cfgs 0 + 1) r_step in
         let sel := every_nth (Z.to_nat r_step) (firstn (b + 1 - a) (skipn a samples)) (S (List.length samples)) in
-        if Nat.eqb (List.length idl) (List.length sel) then Some (idl, sel) else None      (* Obs.__init__ rejects a length mismatch *)
+        if Nat.eqb (List.length idl) (List.length sel) && Nat.leb 5 (List.length sel) then Some (idl, sel) else None      (* Obs.__init__ rejects a length mismatch and fewer than five samples *)
       else None
   | _, _ => None
   end.
